@@ -162,7 +162,7 @@ def handle_is_param_field(field_type_pred=None, field=None, addr=True, param_ind
     """Handle predicate: arg is `&P->F` (addr) or `P->F` with P the function's
     param_index-th parameter."""
     def pred(arg, fn):
-        a = strip_casts(arg)
+        a = fn.resolve(arg) if hasattr(fn, "resolve") else strip_casts(arg)      # through casts and single-definition temporaries
         if a is None:
             return False, "no argument"
         if addr:
@@ -173,6 +173,8 @@ def handle_is_param_field(field_type_pred=None, field=None, addr=True, param_ind
             return False, "expected a field of the parameter"
         rv = root_var(a)
         params = fn.param_names()
+        if params and rv != params[param_index] and hasattr(fn, "value_aliases") and rv in fn.value_aliases(params[param_index]):
+            rv = params[param_index]
         if not params or rv != params[param_index]:
             return False, "handle does not belong to parameter %s" % (params[param_index] if params else "?")
         if field is not None and a["field"] != field:
